@@ -1,4 +1,5 @@
 import NurbsVerif.Lemmas.Affine
+import NurbsVerif.Lemmas.SurfLift
 import NurbsVerif.Model.Transform
 
 /-!
@@ -17,6 +18,17 @@ theorem curve_affine_invariance (p : ℕ) (U : ℕ → K) (P Q : List (List K)) 
     (hmap : ∀ i, i < P.length → (ptsGet Q i).getD j 0 = ∑ l ∈ range d, A l * (ptsGet P i).getD l 0 + b) :
     (curvePointAt p U Q k u).getD j 0 = ∑ l ∈ range d, A l * (curvePointAt p U P k u).getD l 0 + b :=
   curvePointAt_affine p U P Q k u d h hp hk hlen hP hQ j A b hmap
+
+/-- Non-rational surfaces: the same for the tensor-product surface point. -/
+theorem surface_affine_invariance (pu pv : ℕ) (Uu Uv : ℕ → K) (su sv : ℕ) (P Q : List (List K)) (ku kv : ℕ) (u v : K) (d : ℕ)
+    (hu : SpanOk Uu ku u) (hv : SpanOk Uv kv v)
+    (hpu : pu ≤ ku) (hpv : pv ≤ kv) (hku : ku < su) (hkv : kv < sv)
+    (hlenP : P.length = su * sv) (hlenQ : Q.length = su * sv) (hP : NetOk d P) (hQ : NetOk d Q)
+    (j : ℕ) (A : ℕ → K) (b : K)
+    (hmap : ∀ i, i < su * sv → (ptsGet Q i).getD j 0 = ∑ l ∈ range d, A l * (ptsGet P i).getD l 0 + b) :
+    (surfacePointAt pu pv Uu Uv sv Q ku kv u v).getD j 0
+      = ∑ l ∈ range d, A l * (surfacePointAt pu pv Uu Uv sv P ku kv u v).getD l 0 + b :=
+  surfacePointAt_affine pu pv Uu Uv su sv P Q ku kv u v d hu hv hpu hpv hku hkv hlenP hlenQ hP hQ j A b hmap
 
 /-- The general principle behind surfaces, volumes and rational shapes: any combination with
     coefficients summing to one commutes with an affine map … -/
